@@ -59,6 +59,15 @@ class ModuleInfo:
 _PARSE_CACHE: Dict[tuple, "ModuleInfo"] = {}  # per process; keyed by (path, mtime, size)
 _OVERLAY_CACHE: "collections.OrderedDict[tuple, ModuleInfo]" = collections.OrderedDict()  # per process; keyed by (rel, sha1 of the overlay text); LRU
 _OVERLAY_CACHE_MAX = 700
+_SIG_CACHE: Dict[tuple, tuple] = {}  # per process; (rel, sha1 of the source) -> (signatures, imports)
+
+
+def package_signatures(root: str = "/repo", package: str = "synkit", overlay: Optional[Dict[str, str]] = None):
+    """({module rel: {local name: signature}}, digest) without building a Repo (used by the self-test's twin generator)"""
+    r = Repo.__new__(Repo)
+    r.overlay = overlay or {}
+    r.root = os.path.abspath(root)
+    return r._package_signatures(os.path.join(r.root, package))
 
 
 class Repo:
@@ -77,6 +86,8 @@ class Repo:
         pkg = os.path.join(self.root, package)
         if not os.path.isdir(pkg):
             raise AnalysisError(f"package directory {pkg} is missing")
+        externs, sig_digest = self._package_signatures(pkg)
+        self._externs = externs
         for dirpath, dirnames, filenames in os.walk(pkg):
             dirnames[:] = sorted(d for d in dirnames if d != "__pycache__")
             for fn in sorted(filenames):
@@ -89,23 +100,23 @@ class Repo:
                     if rel in self.overlay:
                         src = self.overlay[rel]
                         ck = None
-                        ok_ = (rel, hashlib.sha1(src.encode("utf-8", "replace")).hexdigest())
+                        ok_ = (rel, hashlib.sha1(src.encode("utf-8", "replace")).hexdigest(), sig_digest)
                         if ok_ in _OVERLAY_CACHE:
                             _OVERLAY_CACHE.move_to_end(ok_)
                             self.modules[rel] = _OVERLAY_CACHE[ok_]
                             continue
                     else:
                         st = os.stat(path)
-                        ck = (path, st.st_mtime_ns, st.st_size)
+                        ck = (path, st.st_mtime_ns, st.st_size, sig_digest)
                         if ck in _PARSE_CACHE:
                             self.modules[rel] = _PARSE_CACHE[ck]
                             continue
                         with open(path, "r", encoding="utf-8") as fh:
                             src = fh.read()
-                    tree = normalise(ast.parse(src, filename=path))
+                    tree = normalise(ast.parse(src, filename=path), externs.get(rel))
                     tree, inlined = inline_new_helpers(tree, rel)
                     if inlined:
-                        tree = normalise(tree)
+                        tree = normalise(tree, externs.get(rel))
                 except (SyntaxError, UnicodeDecodeError, OSError) as exc:
                     self.parse_failures.append(f"{rel}: {exc}")
                     continue
@@ -121,6 +132,82 @@ class Repo:
                         _OVERLAY_CACHE.popitem(last=False)
 
         self._cross_module_helpers()
+
+    def _package_signatures(self, pkg: str):
+        """({module rel: {local name: signature of the package function / class it imports}}, digest of all signatures).
+        A first, cheap pass (ast.parse only, cached by content): normal form N22 needs the parameter order of callees defined in other modules."""
+        from .normal import module_signatures
+        sigs, imps = {}, {}
+        for dirpath, dirnames, filenames in os.walk(pkg):
+            dirnames[:] = sorted(d for d in dirnames if d != "__pycache__")
+            for fn in sorted(filenames):
+                if not fn.endswith(".py"):
+                    continue
+                path = os.path.join(dirpath, fn)
+                rel = os.path.relpath(path, self.root)
+                try:
+                    if rel in self.overlay:
+                        src = self.overlay[rel]
+                    else:
+                        with open(path, "r", encoding="utf-8") as fh:
+                            src = fh.read()
+                    key = hashlib.sha1(src.encode("utf-8", "replace")).hexdigest()
+                    hit = _SIG_CACHE.get((rel, key))
+                    if hit is None:
+                        t = ast.parse(src)
+                        im = {}
+                        for st in ast.walk(t):
+                            if isinstance(st, ast.ImportFrom):
+                                mod = ("." * st.level) + (st.module or "")
+                                for a in st.names:
+                                    im[a.asname or a.name] = f"{mod}.{a.name}"
+                        hit = (module_signatures(t), im)
+                        _SIG_CACHE[(rel, key)] = hit
+                    sigs[rel], imps[rel] = hit
+                except (SyntaxError, UnicodeDecodeError, OSError):
+                    continue
+        rels = set(sigs)
+
+        def resolve(rel, org):
+            parts = org.split(".")
+            level = 0
+            while level < len(parts) and parts[level] == "":
+                level += 1
+            names = [p_ for p_ in parts[level:] if p_]
+            if not names:
+                return None, None
+            fname, modparts = names[-1], names[:-1]
+            if level:
+                base = os.path.dirname(rel).split(os.sep)
+                base = base[: len(base) - (level - 1)] if level > 1 else base
+                path = os.path.join(*(base + modparts)) if (base + modparts) else ""
+            else:
+                path = os.path.join(*modparts) if modparts else ""
+            for cand in (path + ".py", os.path.join(path, "__init__.py")):
+                if cand in rels:
+                    return cand, fname
+            return None, None
+        externs = {}
+        for rel, im in imps.items():
+            ex = {}
+            for local, org in im.items():
+                target, name = resolve(rel, org)
+                hops = 0
+                # follow re-exports through __init__ modules (from .x import name)
+                while target is not None and name not in sigs[target][0] and name not in sigs[target][1] and name in imps.get(target, {}) and hops < 3:
+                    target, name = resolve(target, imps[target][name])
+                    hops += 1
+                if target is None or target == rel:
+                    continue
+                funcs, classes = sigs[target]
+                if name in funcs:
+                    ex[local] = ("func", funcs[name])
+                elif name in classes:
+                    ex[local] = ("class", classes[name])
+            if ex:
+                externs[rel] = ex
+        digest = hashlib.sha1(repr(sorted((r, sorted(f.items()), sorted((c, sorted(m.items())) for c, m in cl.items())) for r, (f, cl) in sigs.items())).encode()).hexdigest()
+        return externs, digest
 
     def _cross_module_helpers(self) -> None:
         """a helper that was extracted into ANOTHER module of the package (not in the inventory of the pinned tree there) is substituted at its
@@ -139,10 +226,10 @@ class Repo:
             if not foreign:
                 continue
             try:
-                tree = normalise(ast.parse(mi.src, filename=mi.path))
+                tree = normalise(ast.parse(mi.src, filename=mi.path), self._externs.get(rel))
                 tree, inlined = _inl(tree, rel, foreign)
                 if inlined:
-                    tree = normalise(tree)
+                    tree = normalise(tree, self._externs.get(rel))
             except (SyntaxError, RecursionError):
                 continue
             if not inlined:
@@ -355,9 +442,14 @@ def call_full(c: ast.Call) -> str:
 
 
 def kwarg(c: ast.Call, name: str) -> Optional[ast.AST]:
+    """the argument bound to parameter `name`: the keyword if written; for a callee the normal form resolved (N22: same module, or imported from
+    another module of the package) also the positional argument at that parameter's position"""
     for k in c.keywords:
         if k.arg == name:
             return k.value
+    params = getattr(c, "_params", None)
+    if params and name in params and params.index(name) < len(c.args) and not any(isinstance(a, ast.Starred) for a in c.args):
+        return c.args[params.index(name)]
     return None
 
 
